@@ -112,7 +112,15 @@ pub struct VerifService {
     fallback: ProtocolName,
     keep_alive: SubstreamKeepAlive,
     _cmd_rx: Receiver<crate::transport::manager::handle::InnerTransportManagerCommand>,
+    /// Parked (never polled) yamux connections that the injected substreams belong to; they are
+    /// kept so that writing side shutdown of such a substream completes normally.
+    parked: parking_lot::Mutex<Vec<ParkedYamux>>,
 }
+
+type ParkedYamux = (
+    crate::yamux::Connection<tokio_util::compat::Compat<tokio::io::DuplexStream>>,
+    tokio::io::DuplexStream,
+);
 
 impl VerifService {
     pub fn new(keep_alive_timeout: Duration, keep_alive: bool, first_substream_id: usize) -> Self {
@@ -151,6 +159,7 @@ impl VerifService {
             fallback,
             keep_alive,
             _cmd_rx,
+            parked: parking_lot::Mutex::new(Vec::new()),
         }
     }
 
@@ -194,7 +203,7 @@ impl VerifService {
     }
 
     /// Queue `SubstreamOpened` the way `tcp/connection.rs` builds it: a real TCP substream object
-    /// (over a dead yamux stream) holding the lifetime permit iff the protocol is keep-alive.
+    /// (over a stream of a parked yamux connection) holding the lifetime permit iff the protocol is keep-alive.
     pub fn inject_substream_opened(
         &self,
         peer: PeerId,
@@ -209,7 +218,7 @@ impl VerifService {
             peer,
             substream_id,
             crate::transport::tcp::Substream::new(
-                dead_yamux_stream(),
+                self.parked_yamux_stream(),
                 crate::bandwidth::BandwidthSink::new(),
                 lifetime_permit,
             ),
@@ -305,16 +314,24 @@ impl VerifService {
     }
 }
 
-/// A yamux stream whose connection is gone: good enough to build a `tcp::Substream` value.
-fn dead_yamux_stream() -> tokio_util::compat::Compat<crate::yamux::Stream> {
-    let (a, _b) = tokio::io::duplex(64);
-    let mut connection =
-        crate::yamux::Connection::new(a.compat(), crate::yamux::Config::default(), crate::yamux::Mode::Client);
-    let waker = futures::task::noop_waker();
-    let mut cx = Context::from_waker(&waker);
-    match connection.poll_new_outbound(&mut cx) {
-        Poll::Ready(Ok(stream)) => FuturesAsyncReadCompatExt::compat(stream),
-        _ => panic!("verif: yamux did not hand out a stream"),
+impl VerifService {
+    /// A yamux stream of a parked connection: good enough to build a `tcp::Substream` value whose
+    /// `poll_shutdown` completes (the close command is queued towards the parked connection).
+    fn parked_yamux_stream(&self) -> tokio_util::compat::Compat<crate::yamux::Stream> {
+        let (a, b) = tokio::io::duplex(64);
+        let mut connection = crate::yamux::Connection::new(
+            a.compat(),
+            crate::yamux::Config::default(),
+            crate::yamux::Mode::Client,
+        );
+        let waker = futures::task::noop_waker();
+        let mut cx = Context::from_waker(&waker);
+        let stream = match connection.poll_new_outbound(&mut cx) {
+            Poll::Ready(Ok(stream)) => FuturesAsyncReadCompatExt::compat(stream),
+            _ => panic!("verif: yamux did not hand out a stream"),
+        };
+        self.parked.lock().push((connection, b));
+        stream
     }
 }
 
